@@ -237,4 +237,34 @@ theorem argLoop_scanArgs : ∀ (t : Spec.ArgScan) (l : List Ch) (a : List (List 
       · simp only [List.length_cons] at hn
         omega
 
+/-- entering a macro with parameters, on the character stream: the call text is consumed
+    and replaced by the expansion -/
+theorem enterMacro_runA (d : MacroDef) (hpar : d.params ≠ 0) (b l1 rest : List Ch)
+    (args : List (List Ch)) (text : List Ch) (n : Nat)
+    (hb : ∀ x ∈ b, isBlankCh x = true)
+    (hscan : Spec.scanArgs {} l1 = some (args, rest))
+    (hlen : (l1.length - rest.length) + 2 < 1024)
+    (hcnt : args.length = d.params) (h255 : args.length ≤ 255)
+    (hexp : expandText args d.text = (text, false))
+    (hn1 : n > b.length) (hn2 : n > l1.length - rest.length) :
+    (enterMacro n d).runA (b ++ ch '(' :: l1) = (EnterRes.entered, normText text ++ rest) := by
+  have hskip := skipBlanks_runA b hb (ch '(') (by decide) l1 n hn1
+  have harg := argLoop_scanArgs {} l1 args rest hscan {} n
+    ⟨rfl, rfl, rfl, rfl, rfl, by decide⟩ (by simpa using hlen) h255 hn2
+  unfold enterMacro
+  rw [if_neg hpar]
+  rw [Prog.runA_bind]
+  unfold expandParams
+  rw [Prog.runA_bind, hskip]
+  simp only [ne_eq, not_true_eq_false, if_false]
+  rw [Prog.runA_bind, harg]
+  simp only [hcnt, ne_eq, not_true_eq_false, if_false, hexp, Prog.runA, Bool.false_eq_true, if_true]
+
+/-- entering a macro without parameters (`.define NAME text`, `NAME equ text`, `.macro NAME`) -/
+theorem enterMacro_runA_zero (d : MacroDef) (hpar : d.params = 0) (l : List Ch) (n : Nat) :
+    (enterMacro n d).runA l = (EnterRes.entered, normText d.text ++ l) := by
+  unfold enterMacro
+  rw [if_pos hpar]
+  simp [Prog.runA]
+
 end NakenVerif.Macro
